@@ -32,6 +32,8 @@ pub struct WorkerSlot {
     pub flag: Arc<WakeFlag>,
     pub state: SlotState,
     pub polls: u32,
+    /// never polled while set: the worker's thread is stuck in a synchronous section
+    pub frozen: bool,
 }
 
 pub enum ClientStream {
@@ -476,6 +478,7 @@ impl Hooks for SimHooks {
                     flag: WakeFlag::new(idx as u64),
                     state: SlotState::Running,
                     polls: 0,
+                    frozen: false,
                 });
                 let slot = ws.len() - 1;
                 drop(ws);
